@@ -597,7 +597,15 @@ def probe_side(idx, rep):
         if eye is None:
             continue
         side = "left" if eye is v.left else "right"
-        dim = _shape_axis(df.resolve_value(td.node, eye.args[0]) if isinstance(eye.args[0], ast.Name) else eye.args[0])
+        size_e = eye.args[0]
+        for _k in range(4):  # through locals, in program order (`size = n_rows` on this branch, `n_rows = self.shape[-2]` above)
+            if not isinstance(size_e, ast.Name):
+                break
+            nxt = df.resolve_at(td.node, size_e)
+            if nxt is size_e:
+                break
+            size_e = nxt
+        dim = _shape_axis(size_e)
         construct = f"LinearOperator.to_dense:{side}-probe"
         loc = idx.loc(td.module, getattr(r, "_origin", r))
         if dim is None:
